@@ -40,7 +40,7 @@ pub fn collect_pairs(ctx: Option<&Ctx>) -> Vec<Pair> {
         if let Some(s) = t.chardata_spec() {
             visit(s);
         }
-        for (_, s, _) in t.attribute_spec_iter() {
+        for (_, s, _) in crate::common::specgraph::attribute_specs(t) {
             visit(s);
         }
     }
